@@ -534,8 +534,13 @@ class C10(Check):
             'response before and after, idle request objects (construct / store through one idle request / inspect '
             'all), one application mutating in place everything it is handed while others (same static route, same raw '
             'inputs; default app, nested, app created mid-request, other thread, custom 799 phrase in both orders) read, '
-            'with an identity check of the handed-out objects; single thread, and 2-3 threads under the baton scheduler with every single '
-            'preemption point of thread 1 plus random multi-preemption schedules; every application is compared with '
+            'with an identity check of the handed-out objects; event subscriptions on the request object (a handler calls '
+            'app.request.on(env_changed | a user event), also twice / taken back / next to a copy; afterwards the other '
+            'applications - default app, one built after the subscription, idle ones, nested both ways, another thread - '
+            'store through app.request[k]=v or emit and read back: a listener hears its own request object only; model op '
+            'reqSet); two applications decoding chunked / multipart / chunked-multipart / urlencoded bodies at the same '
+            'time on two threads (default app included); single thread, and 2-3 threads under the baton scheduler with every single '
+            'preemption point of thread 1 (quick: every k-th line when over 1000, offset from the seed) plus random multi-preemption schedules; every application is compared with '
             'the run in which the others\' operations (and its own copies) are deleted, computed in a forked child of '
             'the untouched process; non-trivial = more than one application takes part')
     assumptions = ['thread switches happen at source-line boundaries inside ombott/* and the handlers',
